@@ -129,6 +129,10 @@ func main() {
 		replayMain(os.Args[2:])
 	case "check":
 		checkMain(os.Args[2:])
+	case "runone":
+		runoneMain(os.Args[2:])
+	case "replaychild":
+		replaychildMain(os.Args[2:])
 	case "trace15":
 		trace15Main(os.Args[2:])
 	case "selftest":
@@ -159,6 +163,7 @@ func workerMain(args []string) {
 	budget := fs.Float64("budget", 60, "wall-clock budget in seconds")
 	out := fs.String("out", "", "result file")
 	watchdog := fs.Float64("watchdog", 20, "per-case wall-clock limit in seconds")
+	progress := fs.String("progress", "", "file that always holds the number of the run in progress")
 	fs.Parse(args)
 	e := engines[*prop]
 	if e == nil {
@@ -190,6 +195,11 @@ func workerMain(args []string) {
 		if time.Since(start).Seconds() > *budget {
 			res.EndedBy = "time-budget"
 			break
+		}
+		if *progress != "" {
+			// if this process dies (a fatal runtime error in the tree under
+			// test cannot be recovered), the coordinator knows where
+			os.WriteFile(*progress, []byte(strconv.FormatInt(run, 10)), 0o644)
 		}
 		ch := newChooser(runSeed(*seed, *prop, run))
 		stats.Runs++
@@ -248,6 +258,49 @@ func guard(c any) {
 	raw, _ := json.Marshal(c)
 	curCase.Store(json.RawMessage(raw))
 	curStart.Store(time.Now().UnixNano())
+	if caseFile != "" {
+		os.WriteFile(caseFile, raw, 0o644)
+	}
+}
+
+// caseFile, when set (command runone), receives every case before it is
+// evaluated: if the process dies, the file holds the case that killed it.
+var caseFile string
+
+// runoneMain executes one run in this process, leaving a trail.
+func runoneMain(args []string) {
+	fs := flag.NewFlagSet("runone", flag.ExitOnError)
+	prop := fs.String("prop", "", "property id")
+	seed := fs.Uint64("seed", 1, "VERIF_SEED")
+	run := fs.Int64("run", 0, "run number")
+	cf := fs.String("casefile", "", "file receiving each case before it is evaluated")
+	fs.Parse(args)
+	e := engines[*prop]
+	if e == nil {
+		infra("no engine for property %q", *prop)
+	}
+	caseFile = *cf
+	ch := newChooser(runSeed(*seed, *prop, *run))
+	e.Run(ch, func(c any, v *Violation, log []string, info *caseInfo) {})
+	fmt.Println("RUN-COMPLETED")
+}
+
+// replaychildMain evaluates the case of a replay file and reports completion.
+func replaychildMain(args []string) {
+	b, err := os.ReadFile(args[0])
+	if err != nil {
+		infra("replaychild: %v", err)
+	}
+	var rf ReplayFile
+	if err := json.Unmarshal(b, &rf); err != nil {
+		infra("replaychild: %v", err)
+	}
+	e := engines[rf.Property]
+	if e == nil {
+		infra("replaychild: no engine")
+	}
+	e.Check(rf.Case)
+	fmt.Println("RUN-COMPLETED")
 }
 
 // ---------------------------------------------------------------- digest
